@@ -55,7 +55,7 @@ def do_verify(i, suite=True):
         res["demo_with_patch_output_tail"] = o1
         if suite:
             t0 = time.time()
-            rc, out = sh("cmake -G Ninja -B _build . > /dev/null && cmake --build _build -j16 2>&1 | tail -1 && ctest --test-dir _build -j8 --timeout 900 2>&1 | grep -E 'tests passed|tests failed'", cwd=wt, timeout=7200)
+            rc, out = sh("cmake -G Ninja -B _build -DCMAKE_BUILD_TYPE=RelWithDebInfo -DCMAKE_CXX_FLAGS=-Wno-error . > /dev/null && cmake --build _build -j16 2>&1 | tail -1 && ctest --test-dir _build -j8 --timeout 900 2>&1 | grep -E 'tests passed|tests failed'", cwd=wt, timeout=7200)
             res["suite_with_patch"] = out.strip().splitlines()[-1] if out.strip() else "rc=%d" % rc
             res["suite_wall_s"] = round(time.time() - t0)
         res["ok"] = (rc0 == 0 and rc1 != 0 and (not suite or "100% tests passed" in res.get("suite_with_patch", "")))
